@@ -22,7 +22,7 @@ def typecheck(cfile):
     import re, subprocess
     from vlib.runner import ToolError
     txt = open(cfile).read()
-    txt = re.sub(r'^\s*__CPROVER_(requires|ensures|assigns|loop_invariant|decreases)\(.*\)\s*$', '', txt, flags=re.M)
+    txt = re.sub(r'^\s*__CPROVER_(requires|ensures|assigns|loop_invariant|decreases)\(.*\)[ \t]*(;?)[ \t]*$', r'\2', txt, flags=re.M)
     chk = cfile[:-2] + '.typecheck.c'
     open(chk, 'w').write(txt)
     cmd = ['gcc', '-std=gnu11', '-fsyntax-only', '-Werror=int-conversion', '-Werror=incompatible-pointer-types',
@@ -31,6 +31,48 @@ def typecheck(cfile):
     p = subprocess.run(cmd, stdout=subprocess.PIPE, stderr=subprocess.STDOUT, text=True)
     if p.returncode != 0:
         raise ToolError('generated C does not type-check strictly (%s): %s' % (os.path.basename(cfile), p.stdout[-1500:]))
+
+
+def lower_ctor(b, prof, sm, spec):
+    """StreamAckManager::StreamAckManager(XmppSocket &): member initialisers and the in-class default initialisers they
+    refer to, extracted from the AST (vlib.cxx2c lowers function bodies only; this constructor's body must be empty)"""
+    from vlib import astx
+    from vlib.cxx2c import Lowerer, Unsupported, apply_splices
+    import hashlib, re
+    d = astx.find_function(sm, 'StreamAckManager::StreamAckManager', 'StreamAckManager')
+    _, rec = ctx.record_fields(sm, 'StreamAckManager', 'StreamAckManager')
+    inits = {}
+    for c in rec['inner']:
+        if c.get('kind') == 'FieldDecl' and c.get('hasInClassInitializer'):
+            inits[c['name']] = [x for x in c.get('inner', []) if isinstance(x, dict) and x.get('kind') and not x['kind'].endswith('Comment')][-1]
+    lw = Lowerer(d, 'StreamAckManager_ctor', prof, this_type='StreamAckManager')
+    out = ['void StreamAckManager_ctor(StreamAckManager *self)', '/*@CONTRACT@*/', '{']
+    for c in d['inner']:
+        k = c.get('kind')
+        if k == 'CXXCtorInitializer':
+            name = c['anyInit']['name']
+            e = lw.skip(c['inner'][0])
+            if e.get('kind') == 'CXXDefaultInitExpr':
+                if name not in inits:
+                    raise Unsupported('constructor: member %s has no in-class initialiser' % name)
+                out.append('  self->%s = %s;' % (name, lw.expr(inits[name])))
+            elif e.get('kind') == 'CXXConstructExpr' and lw.ntype(e) == 'QMapUP' and not e.get('inner'):
+                out.append('  QMapUP_ctor(&self->%s);' % name)
+            elif e.get('kind') == 'DeclRefExpr' and 'XmppSocket' in e.get('type', {}).get('qualType', ''):
+                out.append('  /* reference member %s bound to the constructor argument */' % name)
+            else:
+                raise Unsupported('constructor initialiser of %s: %s' % (name, e.get('kind')))
+        elif k == 'CompoundStmt':
+            if c.get('inner'):
+                raise Unsupported('constructor body is not empty')
+        elif k != 'ParmVarDecl':
+            raise Unsupported('constructor child %s' % k)
+    out.append('}')
+    text = apply_splices('\n'.join(out), spec.contract, spec.loops)
+    b0, e0 = astx.src_range(d)
+    b.functions.append({'function': 'StreamAckManager::StreamAckManager', 'cname': 'StreamAckManager_ctor', 'file': SM, 'lines': [b0, e0], 'ast_hash': astx.node_hash(d),
+                        'lowered_c_sha': hashlib.sha256(text.encode()).hexdigest()[:16], 'loops': 0, 'rules_fired': len(lw.fired), 'calls_dropped': 0})
+    return text
 
 
 def build(work, tier):
@@ -62,8 +104,11 @@ def build(work, tier):
     texts = []      # lowered functions, callee first
     jobs = []       # (proof id, cname, harness, spec, kwargs)
 
+    T = {}
+
     def fn(target, sp):
         texts.append(b.lower(target, sp))
+        T[target.cname] = texts[-1]
 
     def job(pid, cname, harness_args, sp, decls='', **kw):
         jobs.append((pid, cname, 'void h_%s(void) { %s %s(%s); }' % (pid, decls, cname, harness_args), sp, kw))
@@ -79,6 +124,7 @@ def build(work, tier):
     # ---------------------------------------------------------------- setAcknowledgedSequenceNumber (erase loop)
     sp = b.spec('setack.spec')
     fn(sam('setAcknowledgedSequenceNumber'), sp)
+    t_setack = texts[-1]
     job('setAcknowledgedSequenceNumber', M + 'setAcknowledgedSequenceNumber', 's, h', sp, 'StreamAckManager *s; unsigned h;', expect_loops=1, timeout=900,
         note='every map size (no capacity bound), every h, every stored/unstored witness packet; erase loop closed by loop contract')
     # ---------------------------------------------------------------- handleAcknowledgement
@@ -123,17 +169,22 @@ def build(work, tier):
     fn(sam('enableStreamManagement'), sp)
     job('enableStreamManagement', M + 'enableStreamManagement', 's, r', sp, 'StreamAckManager *s; bool r;', expect_loops=1, timeout=1200,
         note='every map size; both resend loops (over the saved copy with renumbering, and over the map itself) closed by loop contracts; real body of sendAcknowledgementRequest inlined')
-    p_inv_enable = sp
+    t_enable = texts[-1]
     # ---------------------------------------------------------------- resetCache
     sp = b.spec('resetcache.spec')
     fn(sam('resetCache'), sp)
     job('resetCache', M + 'resetCache', 's', sp, 'StreamAckManager *s;', expect_loops=1, timeout=900, note='every map size; report loop closed by loop contract')
+    # ---------------------------------------------------------------- constructor (initial state = base case of the induction)
+    sp = b.spec('ctor.spec')
+    texts.append(lower_ctor(b, prof, sm, sp))
+    T[M + 'ctor'] = texts[-1]
+    job('constructor', M + 'ctor', 's', sp, 'StreamAckManager *s;', kind='complete', loop_contracts=False)
     # ---------------------------------------------------------------- session end
     sp = b.spec('closed.spec')
     fn(sam('onSessionClosed'), sp)
     job('onSessionClosed', M + 'onSessionClosed', 's', sp, 'StreamAckManager *s;', kind='complete', loop_contracts=False)
 
-    body = '\n'.join(texts)
+    body = '#define MGR self\n' + '\n'.join(texts)
     for pid, cname, harness, sp, kw in jobs:
         f = b.write(pid + '.c', assemble(body, harness))
         typecheck(f)
@@ -143,10 +194,111 @@ def build(work, tier):
         p.expect_post = len(sp.labels)
         proofs.append(p)
 
-    text_all = rd('types.h') + rd('model.h') + open(os.path.join(QT, 'opaque.h')).read()
+    # ---------------------------------------------------------------- C2sStreamManager (src/client/QXmppOutgoingClient.cpp)
+    from profile import C09Lowerer
+    OC = 'src/client/QXmppOutgoingClient.cpp'
+    oc = os.path.join(REPO, OC)
+    sp = b.spec('lastin.spec')
+    t_lastin = b.lower(Target(SM, 'StreamAckManager::lastIncomingSequenceNumber', 'lastIncomingSequenceNumber', M + 'lastIncomingSequenceNumber', this='StreamAckManager'), sp)
+    c2s_jobs = [('lastIncomingSequenceNumber', M + 'lastIncomingSequenceNumber', 'StreamAckManager *s;', 's', sp, [])]
+    recs = []
+    for filt, cls, cname in (('SmResumed', 'SmResumed', 'SmResumed'), ('SmResume', 'SmResume', 'SmResume'), ('SmEnabled', 'SmEnabled', 'SmEnabled')):
+        recs.append(ctx.emit_record(sm, filt, cls, cname, prof)[0])
+    recs.append('typedef struct OptSmResume { bool has; SmResume v; } OptSmResume;')
+    recs.append(ctx.emit_record(oc, 'Sasl2::Authenticate', 'Authenticate', 'Sasl2Authenticate', prof, opaque_ok=True)[0])
+    recs.append(ctx.emit_record(oc, 'Sasl2::StreamFeature', 'StreamFeature', 'Sasl2StreamFeature', prof, opaque_ok=True)[0])
+    # q->streamAckManager() / q->xmppSocket(): getters of the client's one ack manager and socket
+    recs.append('typedef struct QXmppOutgoingClient { StreamAckManager ack; XmppSocket sock; } QXmppOutgoingClient;')
+    recs.append(ctx.emit_record(oc, 'C2sStreamManager', 'C2sStreamManager', 'C2sStreamManager', prof, opaque_ok=True)[0])
+    c2s_texts = []
+    C = 'C2sStreamManager_'
+    for name, specf, decls, args, repl in (
+            ('onResumed', 'onresumed.spec', 'C2sStreamManager *s; SmResumed *r;', 's, r', [M + 'setAcknowledgedSequenceNumber', M + 'enableStreamManagement']),
+            ('onEnabled', 'onenabled.spec', 'C2sStreamManager *s; SmEnabled *e;', 's, e', [M + 'enableStreamManagement', C + 'setResumeAddress']),
+            ('requestResume', 'requestresume.spec', 'C2sStreamManager *s;', 's', []),
+            ('onSasl2Authenticate', 'sasl2auth.spec', 'C2sStreamManager *s; Sasl2Authenticate *a; Sasl2StreamFeature *f;', 's, a, f', []),
+            ('onStreamStart', 'streamstart.spec', 'C2sStreamManager *s;', 's', []),
+            ('onStreamClosed', 'streamclosed.spec', 'C2sStreamManager *s;', 's', [])):
+        sp = b.spec(specf)
+        c2s_texts.append(b.lower(Target(OC, 'C2sStreamManager::' + name, name, C + name, this='C2sStreamManager', lowerer_cls=C09Lowerer), sp))
+        c2s_jobs.append((name, C + name, decls, args, sp, repl))
+    c2s_body = ('#define MGR self\n' + b.prototype(T[M + 'setAcknowledgedSequenceNumber']) + b.prototype(T[M + 'enableStreamManagement']) + t_lastin + '\n'
+                + '\n'.join(recs) + '\n' + rd('c2s_model.h') + '#undef MGR\n#define MGR (&self->q->ack)\n' + '\n'.join(c2s_texts))
+    for pid, cname, decls, args, sp, repl in c2s_jobs:
+        f = b.write(pid + '.c', assemble(c2s_body, 'void h_%s(void) { %s %s(%s); }' % (pid, decls, cname, args)))
+        typecheck(f)
+        p = Proof(pid, f, 'h_' + pid, enforce=cname, include_dirs=[QT], kind='complete', loop_contracts=False, timeout=600, replace=repl,
+                  note=('callees through their contracts: ' + ', '.join(repl)) if repl else '')
+        p.labels = {'post': {cname: sp.labels}}
+        p.expect_post = len(sp.labels)
+        proofs.append(p)
+
+    # ---------------------------------------------------------------- inductive accounting lemma over the contracts only
+    ops = [M + n for n in ('internalSend', 'handleStanza', 'setAcknowledgedSequenceNumber', 'enableStreamManagement', 'resetCache', 'onSessionClosed')]
+    lem = b.subst(rd('lemma.h'))
+    f = b.write('lemma.c', assemble('#define MGR self\n' + ''.join(b.prototype(T[o]) for o in ops + [M + 'ctor']), lem))
+    typecheck(f)
+    p = Proof('lemma_accounting_invariant', f, 'h_lemma', enforce=None, replace=ops, include_dirs=[QT], kind='complete', loop_contracts=False, timeout=600,
+              note='one arbitrary operation from an arbitrary state satisfying the invariant; operations used through their contracts only')
+    p.expect_post = lem.count('"[lemma.') - 1
+    proofs.append(p)
+    p = Proof('lemma_base_case', f, 'h_lemma_base', enforce=None, replace=[M + 'ctor'], include_dirs=[QT], kind='complete', loop_contracts=False, timeout=300,
+              note='the freshly constructed manager (constructor through its contract) satisfies the invariant')
+    p.expect_post = 1
+    proofs.append(p)
+
+    text_all = rd('lemma.h') + rd('types.h') + rd('model.h') + rd('c2s_model.h') + open(os.path.join(QT, 'opaque.h')).read()
     return {
         'proofs': proofs, 'functions': b.functions, 'dropped': b.dropped, 'fired': b.fired, 'hooks': [],
-        'assumed': [],
+        'assumed': [
+            'A-QMAP (units/C09/model.h) QMap<unsigned, QXmppPacket> = interval of keys [first, first+n) + witness view: begin/end/++/key/*/-> walk the keys in ascending order; erase(begin()) removes the smallest key and yields the new begin(); insert(k, v) into an empty map or with k = largest key + 1 appends; copy construction copies; clear() empties. Any other insert sets `broken`, which falsifies the PROVED representation invariant (violation, not assumption); erase elsewhere than begin() is a model limit (exit 2)',
+            'witness idiom: all ghost observations are kept for one arbitrary packet identity g_o >= 1; a packet\'s bytes are named after its promise (PKT_WF, naming convention of the ghost model)',
+            'QXmppPromise<SendResult>::finish(result) is the delivery report of the packet that carries the promise, task() is the task of that promise (event recorder; QXmppPromise itself is C13)',
+            'XmppSocket::sendData(bytes) hands the bytes to the socket: appended to the wire log; the write may succeed or fail (nondeterministic result)',
+            'serializeXml(SmAck{h}) is an <a h=h/>, serializeXml(SmRequest{}) an <r/>, serializeXml(SmResume{h, previd}) a <resume h previd/> (what the toXml members write is codec property C01)',
+            'abstract DOM and opaque strings (qtmodel/opaque.h): tagName / namespaceURI / attribute are functions of the element; QString::toUInt is a function of the string',
+            'QXmppOutgoingClient::streamAckManager() / xmppSocket() are getters of the client\'s one StreamAckManager / socket; C2sStreamManager::setResumeAddress touches only the resume host and port (contract not verified here)',
+            'stated preconditions: on send with stream management on, lastOutgoingSequenceNumber < 2^32-1 (QXmpp does not implement the XEP-0198 wrap-around of the outgoing counter); a packet object is handed to send() once (it is neither stored nor reported); fewer than 2^62 socket writes per history (ghost counter range)',
+            'lemma harness: the __CPROVER_assume statements are the induction hypothesis (an arbitrary state satisfying the invariant) and the environment\'s choice of operation and argument',
+        ],
         'assumes': scan_assumes(text_all),
-        'not_covered': [],
+        'not_covered': [
+            'wrap-around of the outgoing sequence counter at 2^32 (precondition above; the inbound counter wraps as XEP-0198 prescribes and is covered)',
+            'C2sStreamManager::handleElement / onSasl2Success / onBind2Bound (the dispatch that decides WHEN onResumed / onEnabled run), requestEnable, onStreamFeatures, setResumeAddress; that C2sStreamManager::m_enabled and StreamAckManager::m_enabled stay equal',
+            'call-site inventory: that every outgoing stanza of QXmppOutgoingClient goes through StreamAckManager::send and every inbound element through handleStanza, and when resetCache / onSessionClosed are called on connection loss (C10)',
+            'byte content of what is written: the wire log records WHICH packet\'s data() is handed to the socket and the h of <a/>/<resume/>; XML serialisation is C01, delivery of the report to the application\'s continuation is C13',
+            'sendPacketCompat callers relying on its bool result; handlePacketSent (declared, never defined)',
+        ],
+        'explanation': 'Every member of StreamAckManager, the four QXmppPacket members, SmAck::fromDom, SmRequest::fromDom and six members of C2sStreamManager are lowered from the working tree on every run. Loops (erase loop of setAcknowledgedSequenceNumber, both resend loops of enableStreamManagement, report loop of resetCache) are closed by loop contracts for maps of any size. The history part of the property follows from the inductive lemma over the contracts.',
     }
+
+
+# ---------------------------------------------------------------------- native replay (real library, real StreamAckManager)
+_search = {}
+
+
+def _native(args, timeout=900):
+    from vlib import native
+    return native.run_driver(os.path.join(HERE, 'replay_sm.cpp'), args=args, timeout=timeout)
+
+
+def find_input(unit, p, o, lab, work):
+    """a failed obligation is the verdict; as a help for the report, look for a concrete failing history by running every
+    history of up to 4 operations over a small alphabet on the REAL StreamAckManager built from the tree under check"""
+    if os.environ.get('VERIF_C09_NO_NATIVE'):
+        return {'inputs': None, 'reproduced': False, 'native_search': 'disabled by VERIF_C09_NO_NATIVE'}
+    depth = int(os.environ.get('VERIF_C09_SEARCH_DEPTH', '4'))
+    if depth not in _search:
+        _search[depth] = _native(['search', str(depth)])
+    rc, out = _search[depth]
+    line = next((l for l in out.splitlines() if l.startswith('VIOLATED ')), None)
+    if rc == 1 and line:
+        history = line[len('VIOLATED '):].split(' : ')[0].split()
+        return {'inputs': {'history': history}, 'reproduced': True, 'native_output': line,
+                'native_search': 'exhaustive over histories of <= %d operations on the real library' % depth}
+    return {'inputs': None, 'reproduced': False, 'native_search': (out.strip().splitlines() or ['no output'])[-1]}
+
+
+def native_replay(rp):
+    rc, out = _native(['run'] + list(rp['inputs']['history']))
+    return (rc == 1 and 'VIOLATED' in out), out
